@@ -42,12 +42,13 @@ Already-known mutants for this property (do NOT reuse these ideas; find differen
 REQUIREMENTS for each of your two mutants
 - A small source change (a few lines, the kind of slip or "simplification" a maintainer could plausibly commit) in non-test .go files of the library. Do not edit tests, golden files, go.mod. Do not add build tags. Lines containing `vhook(` are instrumentation: leave them alone (you may leave them in place next to code you change).
 - The change must make the property FALSE for some input / configuration / history / schedule, but it MUST need something SPECIFIC to manifest (prefer: a multi-step history, an interaction of two configuration settings, state carried across calls on the same object, an ordering of operations, a fault at one particular point) - a particular interleaving, a fault at a particular point, a multi-step sequence of operations, an unusual (but valid) input, a particular combination of configuration values, or two cooperating sites that each look fine alone - NOT something ordinary use or the existing tests expose at once.
+- Look where earlier rounds did not: the process environment (time zone, locale, GOMAXPROCS), package-level variables and caches, values reused across calls or shared between two objects, error paths that leave state behind, optional XML elements / attributes and configuration fields that no existing test sets, second and later elements of a list, defaults that differ between two constructors of the same thing.
 - The two mutants must differ in mechanism (different function or different clause of the property).
 - With the mutant applied: `cd {wt} && GOFLAGS=-mod=mod GOPROXY=off GOSUMDB=off GOTOOLCHAIN=local go build ./... && go test -vet=off -count=1 ./...` must be all ok (the whole suite, unedited).
 - A DEMONSTRATION: a standalone Go test file (package saml / samlsp / samlidp / xmlenc as appropriate, named zz_demo_test.go, placed in the package directory only while you run it) or a small program that FAILS with the mutant applied and PASSES on the unmodified worktree. It must exercise the property through the library's public behaviour (or package-internal functions if needed) and state in a comment what specific condition it needs. The network is unavailable; generate keys/certificates in the demo itself (crypto/rsa, crypto/x509) or reuse files under testdata/.
 
 PROCEDURE
-1. Read the anchored code in {wt}. Design mutant 1. Apply it. Run build + full test suite (must pass). Write the demo; run it with the mutant (must FAIL) ; `git stash` / `git checkout -- .` the mutant (keep the demo file), run the demo on the clean tree (must PASS). Save `git diff` of the mutant (library files only, not the demo) as {out}/1/patch.diff, the demo as {out}/1/zz_demo_test.go (say in a top comment which package directory it belongs in), and {out}/1/README.md (what it breaks, what it needs in order to manifest, the exact commands you ran and their outcomes).
+1. Read the anchored code in {wt}. Design mutant 1. Apply it. Run build + full test suite (must pass). Write the demo; run it with the mutant (must FAIL) ; undo the mutant with `git diff > /tmp/<your-own-file>.diff && git checkout -- .` (keep the demo file; do NOT use `git stash` - the stash is shared by all worktrees of this repository and other authors are working in parallel), run the demo on the clean tree (must PASS). Save `git diff` of the mutant (library files only, not the demo) as {out}/1/patch.diff, the demo as {out}/1/zz_demo_test.go (say in a top comment which package directory it belongs in), and {out}/1/README.md (what it breaks, what it needs in order to manifest, the exact commands you ran and their outcomes).
 2. Reset the worktree (`git checkout -- . && git clean -fd`), do the same for mutant 2 into {out}/2/.
 3. Leave the worktree clean (no mutant applied, no demo file) when done.
 
